@@ -13,9 +13,10 @@ Model of who stamps it, as coded at HEAD:
   `copy_value_from`, and what nodes call to publish an empty dictionary): `touch_impl -> mark_modified` on the
   dictionary, then `if (key_set().last_modified_time() == MIN_DT) record_modified(t)` on the key set - the
   "empty first tick" rule.
-* `TSDDataMutationView::erase` of an ABSENT key: `touch_impl -> mark_modified` on the dictionary only; the key set
-  is not looked at (so a blind erase as the very first write validates the dictionary and not its key set - the
-  `apply_delta` path never does that: `delta_has_effect_tsd` drops lenient removals of absent keys).
+* `TSDDataMutationView::erase` of an ABSENT key: `remove_key` changes nothing, then `touch()` (repaired in /repo
+  8d7f72a; before that it was `touch_impl -> mark_modified` on the dictionary only, so a blind erase as the very
+  first write validated the dictionary and not its key set - `stampsPreFix` keeps that rule as a counter-witness).
+  `clear()` = `touch()`, then `erase` of every live key (`clearPrims`).
 * a child write reaches the dictionary through `record_child_modified` / the parent link: the dictionary only.
 * `apply_delta` of an empty delta: `delta_has_effect_tsd = !out.valid()`, then `touch()`.
 -/
@@ -29,13 +30,13 @@ structure DK where
   keys : List Int := []
 deriving Repr, Inhabited, DecidableEq
 
-/-- the primitive steps every dictionary mutation is made of (`set key v` = `at key`, then `childTick`;
+/-- the primitive steps every dictionary mutation is made of (`set key v` = `at key`, then `childTick key`;
 `copy_value_from m` = `touch`, `set` for every item, `erase` for every other live key) -/
 inductive Prim where
   /-- `TSDDataMutationView::at(key)`: `insert_key` -/
   | at (key : Int)
-  /-- a child of a live key is written -/
-  | childTick
+  /-- the child of `key` is written (there is a child only under a live key: nothing happens otherwise) -/
+  | childTick (key : Int)
   /-- `TSDDataMutationView::erase(key)` -/
   | erase (key : Int)
   /-- `TSDDataMutationView::touch()` -/
@@ -47,15 +48,20 @@ deriving Repr, DecidableEq
 /-- `key_set_tracking_.record_modified(t)` is called -/
 def stamps (s : DK) : Prim → Bool
   | .at key => !s.keys.contains key
-  | .childTick => false
-  | .erase key => s.keys.contains key
+  | .childTick _ => false
+  | .erase key => s.keys.contains key || s.k == 0
   | .touch => s.k == 0
   | .emptyDelta => s.d == 0 && s.k == 0
+
+/-- the rule before /repo 8d7f72a: an erase of an absent key never looked at the key set -/
+def stampsPreFix (s : DK) : Prim → Bool
+  | .erase key => s.keys.contains key
+  | p => stamps s p
 
 /-- the dictionary's own record is stamped (`mark_modified`) -/
 def ticks (s : DK) : Prim → Bool
   | .at key => !s.keys.contains key
-  | .childTick => true
+  | .childTick key => s.keys.contains key
   | .erase _ => true
   | .touch => true
   | .emptyDelta => s.d == 0
@@ -78,17 +84,6 @@ def changed (s : DK) : Prim → Bool
   | .erase key => s.keys.contains key
   | _ => false
 
-/-- the steps the runtime's own paths produce: an erase of an absent key is applied only to a dictionary whose key
-set is already valid (`apply_delta` drops it otherwise), a child is written only when there is a live key -/
-def Guarded (s : DK) : Prim → Prop
-  | .erase key => s.keys.contains key = true ∨ s.k ≠ 0
-  | .childTick => s.keys ≠ []
-  | _ => True
-
-def GuardedRun : DK → List (Prim × Nat) → Prop
-  | _, [] => True
-  | s, x :: xs => Guarded s x.1 ∧ GuardedRun (dkStep s x.1 x.2) xs
-
 /-- positive non-decreasing times -/
 def MonoK : Nat → List (Prim × Nat) → Prop
   | _, [] => True
@@ -106,7 +101,16 @@ def specStamps (s : DK) (p : Prim) : Bool := ticks s p && (changed s p || s.k ==
 def stampsSeeded (s : DK) : Prim → Bool
   | .touch => false
   | .emptyDelta => false
+  | .erase key => s.keys.contains key      -- the absent-key erase goes through the dead `touch()` too
   | p => stamps s p
+
+def dkStepPreFix (s : DK) (p : Prim) (t : Nat) : DK :=
+  { d := if ticks s p then record s.d t else s.d
+    k := if stampsPreFix s p then record s.k t else s.k
+    keys := keysAfter s p }
+
+/-- `TSDDataMutationView::clear()`: `touch()`, then `erase` of every live key -/
+def clearPrims (s : DK) : List Prim := .touch :: s.keys.map .erase
 
 def dkStepSeeded (s : DK) (p : Prim) (t : Nat) : DK :=
   { d := if ticks s p then record s.d t else s.d
